@@ -31,9 +31,9 @@ Print Assumptions C17_wire_in_order_and_callbacks_exactly_once.
    continuation of the read is lost for good. *)
 Theorem C17_unserialised_flush_refuted :
   let s := warun (wa_init false)
-             [WaRead 1; WaPeer 9 [7]; WaPoll 1000; WaWrite 100 [1; 2; 3]; WaPoll 1000; WaPoll 1000; WaPoll 1000;
+             [WaRead 1 70000; WaPeer 9 [7]; WaPoll 1000; WaWrite 100 [1; 2; 3]; WaPoll 1000; WaPoll 1000; WaPoll 1000;
               WaPeer 1 [65]; WaPoll 1000; WaPoll 1000; WaPoll 1000] in
-  a_rd s = Some 1 /\ a_rwait s = false /\ outstanding s = [] /\ a_wr s = None /\ a_inq s = [(1, [65])] /\
+  a_rd s = Some (1, 70000) /\ a_rwait s = false /\ outstanding s = [] /\ a_wr s = None /\ a_inq s = [(1, [65])] /\
   map (fun e => fst (fst e)) (a_log s) = [100].
 Proof. exact unserialised_flush_drops_the_read. Qed.
 Print Assumptions C17_unserialised_flush_refuted.
@@ -42,7 +42,7 @@ Print Assumptions C17_unserialised_flush_refuted.
    run, the message is delivered, the wire carries the Pong then the application frame. *)
 Example C17_demo :
   let s := warun (wa_init true)
-             [WaRead 1; WaPeer 9 [7]; WaPoll 2; WaWrite 100 [1; 2; 3]; WaPoll 2; WaPoll 2; WaPoll 2; WaPoll 2; WaPoll 2; WaPoll 2;
+             [WaRead 1 70000; WaPeer 9 [7]; WaPoll 2; WaWrite 100 [1; 2; 3]; WaPoll 2; WaPoll 2; WaPoll 2; WaPoll 2; WaPoll 2; WaPoll 2;
               WaPeer 1 [65]; WaPoll 2; WaPoll 2] in
   rev (a_log s) = [(100, 0, []); (1, 1, [65])] /\ a_wire s = [138; 1; 7; 130; 3; 1; 2; 3] /\ a_rd s = None /\ a_fuel_out s = false.
 Proof. vm_compute. repeat split; reflexivity. Qed.
